@@ -404,6 +404,8 @@ ViewOk(kind, b, v, base) ==
 
 TypedConf(kind, b, res, base) ==
     /\ P("C01") => ~IsPanic(res)
+    \* From<T> for Packet: the typed value wrapped into the generic enum has the variant of its type and the same contents
+    /\ (P("C12") /\ IsOk(res) /\ Has(res, "as_packet")) => (res.as_packet.variant = kind /\ res.as_packet.same)
     \* C18, second sentence: a too-short input and a version-2 input of the right type with a wrong length ARE reported
     /\ (P("C18") /\ MandatedErr(MinLen(kind), PTOf(kind), b) # {}) => IsErr(res)
     /\ IsOk(res) =>
@@ -420,6 +422,7 @@ FciDirectConf(f, region, res) ==
     /\ P("C15") => FciLaw(f, region, res, 0, 0)
     /\ P("C18") => (IsErr(res) => Truthful(-1, region, AsErr(res)))
 
+Core(r) == IF IsOk(r) THEN [t |-> "ok", view |-> r.view] ELSE r      \* a result without its side observations
 \* the generic parser (C12): dispatch on the packet type byte, outcome identical to the typed parser's.
 \* typed = the results of all typed parsers and of the unknown parser on the same bytes (may be None)
 PacketConf(b, res, typed, base) ==
@@ -445,8 +448,8 @@ PacketConf(b, res, typed, base) ==
               /\ IsErr(res) => TypedConf(var, b, res, base)
               /\ (P("C12") /\ ~IsNone(typed)) =>
                     /\ IsOk(res) => (IsOk(typed[var]) /\ typed[var].view = res.view.inner)
-                    /\ IsErr(res) => typed[var] = res
-                    /\ IsOk(typed["unknown"]) => \A t \in PacketKinds : typed["unknown"].view.conv[t] = typed[t]
+                    /\ IsErr(res) => Core(typed[var]) = res
+                    /\ IsOk(typed["unknown"]) => \A t \in PacketKinds : typed["unknown"].view.conv[t] = Core(typed[t])
 
 -----------------------------------------------------------------------------
 (* Round trip (C02-C05, C14, C19): the view of the parsed image is the      *)
